@@ -93,7 +93,8 @@ def check(run):
                             v("wrong-values", "Wigner.sYlm", {**cfg, "s": s}, "values of a generously sized calculator", "differs")
                 # ---- evaluate / rotate
                 for s in ([-2, 0, 1, 3] if quick else [-3, -2, -1, 0, 1, 2, 4]):
-                    for Lm in sorted({abs(s), ell_max - 1, ell_max, ell_max + 1} & set(range(abs(s), LM + 2))):
+                    # (modes with ell_max below |s| describe the zero function: still a legitimate request)
+                    for Lm in sorted(({abs(s), ell_max - 1, ell_max, ell_max + 1} & set(range(abs(s), LM + 2))) | ({0, abs(s) - 2, abs(s) - 1} & set(range(0, LM + 2)))):
                         modes = modes_for(s, Lm)
                         arr = modes.ndarray
                         ref_eval = np.tensordot(arr, Ybig[s][:(Lm + 1) ** 2] if Lm <= LM + 2 else None, axes=([-1], [0])) if abs(s) <= LM + 1 and Lm <= LM + 2 else None
